@@ -123,6 +123,19 @@ class Registry:
         self.spec_natives["is_ascii"] = lambda it, a, k: VBool(_uf("is_ascii", STR, BOOL)((a[0].val if isinstance(a[0], VOpt) else a[0]).t))
         self.spec_natives["effect_names"] = lambda it, a, k: VList(items=[VStr(z3.StringVal(e[0])) for e in it.path.effects])
         self.spec_natives["implies"] = lambda it, a, k: VBool(z3.Implies(it.truthy(a[0]), it.truthy(a[1])))
+        def _struct_resolver(qualname):
+            ci = self.repo.lookup_class(qualname)
+            if ci is None:
+                raise Unsupported(f"struct of unknown class {qualname}")
+            fk = {}
+            for c in reversed(ci.mro()):
+                if isinstance(c, ClassInfo):
+                    for f, k in self.fields.get(c.qualname, {}).items():
+                        if not k.startswith("obj:") and not f.startswith("ghost_"):
+                            fk[f] = k
+            return ci, fk
+
+        vals.STRUCT_RESOLVER = _struct_resolver
         from . import models  # noqa: F401  registers externals
 
         models.install(self)
